@@ -66,7 +66,7 @@ func main() {
 			rep.SetJob(j.Name)
 			t0 := time.Now()
 			j.Run(rep)
-			fmt.Printf("%-60s exec=%d trans=%d states=%d outcomes=%d viol=%d capped=%v extra=%v %.1fs\n", j.Name, rep.Executions, rep.Transitions, rep.States, len(rep.Outcomes), len(rep.Violations), rep.Capped, rep.Extra, time.Since(t0).Seconds())
+			fmt.Printf("%-60s exec=%d trans=%d states=%d outcomes=%d viol=%d capped=%v extra=%v %.1fs\n", j.Name, rep.Executions, rep.Transitions, rep.States, rep.Distinct(), len(rep.Violations), rep.Capped, rep.Extra, time.Since(t0).Seconds())
 			for _, v := range rep.Violations {
 				fmt.Println("   ", v.Sig(), v.Count)
 			}
@@ -263,7 +263,7 @@ func finish(c *mc.Check, total *mc.Report, seed int, start time.Time, machErr bo
 		fmt.Printf("  features: %s\n  detail: %s\n", v.Sig(), firstLines(v.Detail, 12))
 		exit = 1
 	}
-	distinct := int64(len(total.Outcomes))
+	distinct := total.Distinct()
 	if len(total.Samples) == 0 {
 		total.Samples = append(total.Samples, map[string]any{"note": "no sample recorded", "jobs": total.Jobs})
 	}
@@ -285,6 +285,7 @@ func finish(c *mc.Check, total *mc.Report, seed int, start time.Time, machErr bo
 		"outcome_examples":              topOutcomes(total.Outcomes, 10),
 		"extra":                         total.Extra,
 		"known_findings_matched":        knownList,
+		"distinct_is_lower_bound":       total.OutcomeOverflow > 0,
 		"notes":                         total.Notes,
 		"machinery_errors":              total.MachErr,
 	}
